@@ -82,10 +82,11 @@ class Shape:
     pathform: str = "abs"  # 'abs' | 'rel' (relative to cwd)
     outdir: str = "abs"  # 'abs' | 'rel' explicit output directory | 'default' (none given)
     quiet: bool = False  # -q
+    decoys: bool = False  # the working directory holds OTHER files under the relative paths of the unit's files
     stale: str = ""  # '' | 'long' | 'short': the output directory already holds files with the names about to be written
 
     def text(self) -> str:
-        return f"PYTHONHASHSEED={self.hashseed} cwd={self.cwd} path={self.pathform} outdir={self.outdir}{' -q' if self.quiet else ''}{' stale-' + self.stale + '-outputs-present' if self.stale else ''}"
+        return f"PYTHONHASHSEED={self.hashseed} cwd={self.cwd} path={self.pathform} outdir={self.outdir}{' -q' if self.quiet else ''}{' stale-' + self.stale + '-outputs-present' if self.stale else ''}{' same-named-decoy-files-in-cwd' if self.decoys else ''}"
 
 
 CANONICAL = Shape()
@@ -111,6 +112,12 @@ def run_fresh(texts: Dict[str, str], main: str, opts: Opts, shape: Shape = CANON
         os.makedirs(d)
     bpapi.write_files(src, texts)
     cwd = src if shape.cwd == "src" else other
+    if shape.decoys and shape.cwd != "src":
+        # files of the same relative names, but other content, where the compiler RUNS: imports are relative to the
+        # importing file, never to the working directory
+        for name in texts:
+            pname = os.path.splitext(os.path.basename(name))[0].split(".")[0].replace("-", "_")
+            bpapi.write_files(other, {name: f"proto {pname}\n\nmessage DecoyOnly {{\n    uint7 decoy = 1\n}}\n"})
     path = os.path.join(src, main)
     if shape.pathform == "rel":
         path = os.path.relpath(path, cwd)
